@@ -2,7 +2,8 @@
 and direct oracle (rejected => nothing changed; allowed => destination; active = current + ancestors; events exactly once).
 
 Finding classes (stable strings): "c18-nested-hier" (handler-requested transition in a hierarchical machine leaves stale flags),
-"c18-race" (two concurrent _perform_transition calls: result is not that of any sequential order).  Anything else is a violation.
+"c18-race" (two concurrent _perform_transition calls: result is not that of any sequential order).  Anything else is a violation,
+in particular "c18-shipped-definition": a shipped machine behaves differently from its reference definition (Spec.Machines).
 The driver domains used are `sm` (engine) and `gemctrl bare` (public methods of the shipped control machine).
 """
 from __future__ import annotations
@@ -552,6 +553,150 @@ def shipped_run(sm, states, reqs):
     return f"ok cur={cur} active={''.join('1' if s.active else '0' for s in states)} log={','.join(log)} res={','.join(results)}"
 
 
+# ------------------------------------------------------------------------------------------------ shipped definitions vs reference
+def parse_table(text):
+    """`sm table` / `sm reftable` / introspect() format -> (states {name: parent}, order, transitions [(name, frozenset(srcs), dst)], initial)"""
+    parts = dict(w.split("=", 1) for w in text.split()[1:])
+    states, order = {}, []
+    for w in parts["states"].split(","):
+        nm, _val, par, _ini = w.split(":")
+        states[nm] = None if par == "-" else par
+        order.append(nm)
+    trans = []
+    for w in parts["transitions"].split(","):
+        nm, rest = w.split(":")
+        srcs, dst = rest.split(">")
+        trans.append((nm, frozenset(srcs.split("+")), dst))
+    return states, order, trans, parts["initial"]
+
+
+def named_run(sm, states, reqs):
+    """requests on a real shipped machine, everything observed by NAME (format of `sm ref`)"""
+    log = []
+    # recorders go in FRONT of the callbacks the constructor registered (the forwarders), so that an event is recorded when it fires
+    for st in states:
+        st.events.enter._callbacks.insert(0, lambda _d, n=st.name: log.append("e." + n))
+        st.events.leave._callbacks.insert(0, lambda _d, n=st.name: log.append("l." + n))
+    for tr in sm._transitions:
+        tr.events.called._callbacks.insert(0, lambda _d, n=tr.name: log.append("c." + n))
+    results = []
+    for r in reqs:
+        try:
+            sm._perform_transition(r)
+            results.append("ok")
+        except (WrongSourceStateError, UnknownTransitionError) as exc:
+            results.append(errname(exc))
+    return f"ok cur={sm.current_state.name} active={'+'.join(x.name for x in states if x.active)} log={','.join(log)} res={','.join(results)}"
+
+
+def describe_difference(seq, impl, ref):
+    fi = dict(w.split("=", 1) for w in impl.split()[1:])
+    fr = dict(w.split("=", 1) for w in ref.split()[1:]) if ref.startswith("ok cur=") else {}
+    hist = ", ".join(seq)
+    if not fr:
+        return f"after [{hist}]: the reference model answers {ref[:80]!r}"
+    if fi["res"] != fr["res"]:
+        ri, rr = fi["res"].split(","), fr["res"].split(",")
+        k = next(i for i, (a, b) in enumerate(zip(ri, rr)) if a != b)
+        return f"[{', '.join(seq[:k])}] then {seq[k]}: {'raised ' + ri[k] if ri[k] != 'ok' else 'was performed'}; by the reference definition it {'is performed' if rr[k] == 'ok' else 'raises ' + rr[k]}"
+    if fi["cur"] != fr["cur"]:
+        return f"after [{hist}]: current state {fi['cur']}, reference definition: {fr['cur']}"
+    if fi["active"] != fr["active"]:
+        return f"after [{hist}]: active states {{{fi['active']}}} in {fi['cur']}, reference definition: {{{fr['active']}}}"
+    return f"after [{hist}]: events fired {fi['log']} - reference definition: {fr['log']}"
+
+
+def shipped_vs_reference(res, rng, drv, big):
+    """The REAL shipped machines against the reference definitions of Spec.Machines interpreted by the engine model (`sm ref`):
+    structure, every single transition from every reachable state, all short histories, random histories."""
+    if not drv.available:
+        res.notes.append("driver unavailable: shipped definitions not compared with the reference definitions")
+        return
+    import collections
+    mk = shipped_instances()
+    ref_tables = drv.run([f"sm reftable {n}" for n in ("ConnSM", "CommSM", "CtrlSM")])
+    jobs = []   # (label, ctor, driver line prefix, request sequence)
+    for name, ref_text in zip(("ConnSM", "CommSM", "CtrlSM"), ref_tables):
+        rstates, rorder, rtrans, rinit = parse_table(hlib.strip_branch(ref_text))
+        impl_text, _ = introspect(mk[name]())
+        istates, iorder, itrans, iinit = parse_table(impl_text)
+        # ---- structure (states, hierarchy, initial state, transitions): concrete element that differs
+        diffs = []
+        if iorder != rorder:
+            diffs.append(f"states {iorder} - reference {rorder}")
+        for nm in rorder:
+            if nm in istates and istates[nm] != rstates[nm]:
+                diffs.append(f"state {nm}: parent {istates[nm] or 'none'} - reference definition: parent {rstates[nm] or 'none'}")
+        if iinit != rinit:
+            diffs.append(f"initial state {iinit} - reference {rinit}")
+        rt = {t[0]: t for t in rtrans}
+        if [t[0] for t in itrans] != [t[0] for t in rtrans]:
+            diffs.append(f"transitions {[t[0] for t in itrans]} - reference {[t[0] for t in rtrans]}")
+        for t in itrans:
+            if t[0] in rt and (t[1], t[2]) != (rt[t[0]][1], rt[t[0]][2]):
+                diffs.append(f"transition {t[0]}: {sorted(t[1])} -> {t[2]} - reference definition: {sorted(rt[t[0]][1])} -> {rt[t[0]][2]}")
+        res.count(("definition", name), sample={"definition": name, "differences": diffs})
+        res.bump("shipped_definition", f"{name}: " + ("equals the reference definition" if not diffs else "DIFFERS"))
+        tnames = [t[0] for t in rtrans]
+        # ---- histories
+        if name != "CtrlSM":
+            # shortest path (by the reference definition) to every reachable current state, then every single transition
+            paths = {rinit: []}
+            dq = collections.deque([rinit])
+            while dq:
+                cur = dq.popleft()
+                for nm, srcs, dst in rtrans:
+                    if cur in srcs and dst not in paths:
+                        paths[dst] = paths[cur] + [nm]
+                        dq.append(dst)
+            seqs = [p_ + [t] for p_ in sorted(paths.values(), key=len) for t in tnames + ["zz"]]
+            seqs += [p_ + [t, u] for p_ in sorted(paths.values(), key=len) for t in tnames for u in tnames]
+            for _ in range(1200 if big else 250):
+                seqs.append([rng.choice(tnames) for _ in range(rng.range(3, 12))])
+            for seq in seqs:
+                jobs.append((name, mk[name], f"sm ref {name} R=" + ",".join(seq), seq, None))
+            res.exhaustive_parts.append(f"{name}: every transition (and every pair) from every current state reachable by the reference definition ({len(paths)} states)")
+        else:
+            import secsgem.gem.control_state_machine as ctrl_mod
+            for initial in ("EQUIPMENT_OFFLINE", "ATTEMPT_ONLINE", "HOST_OFFLINE", "ONLINE"):
+                for sub in ("LOCAL", "REMOTE"):
+                    seqs = [["start"]] + [["start", t] for t in tnames] + [["start", t, u] for t in tnames for u in tnames]
+                    for _ in range(300 if big else 60):
+                        seqs.append(["start"] + [rng.choice(tnames) for _ in range(rng.range(3, 10))])
+                    for seq in seqs:
+                        jobs.append((name, (lambda i=initial, s_=sub: ctrl_mod.ControlStateMachine(i, s_)),
+                                     f"sm ref CtrlSM {initial} {sub} R=" + ",".join(seq), seq, f"{initial}/{sub}"))
+            res.exhaustive_parts.append("CtrlSM: start, then every transition and every pair of transitions, for each of the 8 configurations")
+        if diffs:
+            # a structural difference without a differing history would still be reported (it cannot happen for states/transitions in use)
+            jobs.append((name, None, None, None, diffs))
+    lines = [j[2] for j in jobs if j[2]]
+    outs = iter(drv.run(lines)) if lines else iter([])
+    reported = collections.Counter()
+    structural = {}
+    for name, ctor, line, seq, extra in jobs:
+        if ctor is None:
+            structural[name] = extra
+            continue
+        ref = hlib.strip_branch(next(outs))
+        sm = ctor()
+        _, states = introspect(sm)
+        impl = named_run(sm, states, seq)
+        res.count(("ref", line), nontrivial=",ok" in impl or "res=ok" in impl)
+        res.traces_validated += 1
+        if impl != ref:
+            reported[name] += 1
+            if reported[name] <= 3:
+                cfg = f" (configuration {extra})" if extra else ""
+                res.violate("c18-shipped-definition", f"{name}{cfg}: " + describe_difference(seq, impl, ref),
+                            {"shipped": name, "config": extra, "requests": seq}, ref[:400], impl[:400])
+    for name, diffs in structural.items():
+        res.bump("shipped_definition_histories", f"{name}: {reported[name]} histories differ from the reference")
+        if not reported[name]:
+            res.violate("c18-shipped-definition", f"{name}: definition differs from the reference definition: " + "; ".join(diffs[:4]),
+                        {"shipped": name, "differences": diffs})
+
+
 # ------------------------------------------------------------------------------------------------ main
 WITNESS_CHILD = {"parents": [None, 0, None], "trans": [("go", [2], 1), ("back", [1], 2)], "handlers": [("e", 1, False, ["back"])],
                  "init": 2, "reqs": ["go"]}
@@ -609,6 +754,24 @@ def main():
         for c in replay_cases:
             c = c.get("case", c) if isinstance(c, dict) and "machine" not in c else c
             if not isinstance(c, dict) or "machine" not in c:
+                continue
+            if "shipped" in c:
+                if "requests" in c and drv.available:
+                    name, seq = c["shipped"], c["requests"]
+                    if name == "CtrlSM":
+                        import secsgem.gem.control_state_machine as ctrl_mod
+                        ini, sub = (c.get("config") or "EQUIPMENT_OFFLINE/REMOTE").split("/")
+                        sm = ctrl_mod.ControlStateMachine(ini, sub)
+                        line = f"sm ref CtrlSM {ini} {sub} R=" + ",".join(seq)
+                    else:
+                        sm = shipped_instances()[name]()
+                        line = f"sm ref {name} R=" + ",".join(seq)
+                    _, states_ = introspect(sm)
+                    impl = named_run(sm, states_, seq)
+                    ref = hlib.strip_branch(drv.run([line])[0])
+                    if impl != ref:
+                        res.violate("c18-shipped-definition", f"{name}: " + describe_difference(seq, impl, ref), c, ref[:400], impl[:400])
+                    res.count(("replay", line))
                 continue
             if "schedule" in c:
                 d = parse_machine(c["machine"], [])
@@ -744,6 +907,9 @@ def main():
                 res.violate("c18-engine", f"{name}: active states are not the current state and its ancestors", {"machine": name, "requests": seq},
                             sorted(anc), [i for i, x in enumerate(states) if x.active])
     hlib.compare_batch(res, drv, "shipped machines: structure (Gen.Machines) and behaviour", cases, lines, answers)
+
+    # ------------------------------------------------------------ D. the shipped definitions against the reference definitions
+    shipped_vs_reference(res, rng, drv, big)
 
     res.dump(a.out)
     os._exit(0)
